@@ -19,7 +19,8 @@ func init() {
 			"R3 line map — ToBytes and splitPatch sample the buffer length before writing the line it describes and pair it with that line's own position; stripping the '-'/'+' byte is paired with StartPos++ in the same arm; every line of a section is mapped back with AddLineColumnInfo(offset, filename, line, column) taken from the matching fields, in that order, for all lines; " +
 			"(and the token.File receiving the table is the one created for that section, identified by object, not by name); R4 rejection means no rewrite — when loadPatches fails Run returns before target discovery. " +
 			"NOT decided: the arithmetic itself (off-by-one constants, token.File line-info semantics)." +
-			" R2 also: no uncounted front cut between the header line and the validated name.",
+			" R2 also: no uncounted front cut between the header line and the validated name." +
+			" R6 positions are resolved by the FileSet.",
 		Trusted:     commonTrusted,
 		Assumptions: commonAssumptions,
 	})
